@@ -83,16 +83,13 @@ def body (side : Side) (ip : Vec K → Vec K → K) (sqrt : K → K) (A : CRS K)
       .ok { first := false, iter := st.iter + 1, rho1 := rho1, alpha := alpha, omega := st.omega,
             res := res, x := x, w := ⟨w.r, p, v, s, w.t, w.rh, T⟩ }
 
+/-- the first conjunct of the loop guard: `res > eps` -/
+def cond (epsT : K) (st : St K) : Bool := decide (epsT < st.res)
+
 /-- `for(bool first = true; res > eps && iter < prm.maxiter; ++iter) body` with `fuel = maxiter - iter` -/
 def loop (side : Side) (ip : Vec K → Vec K → K) (sqrt : K → K) (A : CRS K) (P : Vec K → Vec K) (epsT : K) :
-    Nat → St K → Option Err × St K
-  | 0, st => (none, st)
-  | fuel + 1, st =>
-    if epsT < st.res then
-      match body side ip sqrt A P epsT st with
-      | .error (e, st') => (some e, st')
-      | .ok st' => loop side ip sqrt A P epsT fuel st'
-    else (none, st)
+    Nat → St K → Option Err × St K :=
+  loopE (cond epsT) (body side ip sqrt A P epsT)
 
 /-- the state on loop entry (bicgstab.hpp:178-193) -/
 def init (prm : Params K) (ip : Vec K → Vec K → K) (sqrt : K → K) (A : CRS K) (P : Vec K → Vec K)
